@@ -12,6 +12,7 @@ import ClairModel.Model.TarFSLayer
                                             -> ok          (append a member; kind r d s l x; hex fields; header size,
                                                             segment size, header mode, ModTime)
     new                                     -> ok <inodes> <keys> | err:<class>
+    newa <class>                            -> as new, but <class> when the outcome of New depends on map iteration order
     xtree                                   -> the extraction reference (Model/TarFSExtract) of the members: none | entries
     tables                                  -> canonical dump of the lookup and inode tables
     stat|open|readdir|glob <subs> <arg>     -> answer of the query on the view (after Sub along <subs>)
@@ -213,6 +214,14 @@ def stepLine (s : St) (l : String) : St × String :=
     match newFS s.ms.reverse with
     | .ok fs => ({ s with fs := some fs }, s!"ok {fs.inodes.length} {fs.lookup.length}")
     | .error e => ({ s with fs := none }, errName e)
+  | ["newa", cls] =>
+    -- New failed in the implementation on an archive with a link in a member
+    -- path: its answer stands when the model finds the outcome order-dependent.
+    if ambDuring rootFS [] s.ms.reverse then (s, cls)
+    else
+      match newFS s.ms.reverse with
+      | .ok fs => ({ s with fs := some fs }, s!"ok {fs.inodes.length} {fs.lookup.length}")
+      | .error e => ({ s with fs := none }, errName e)
   | "fn" :: rest => (s, fnLine rest)
   | ["linit", mt, dg] =>
     match Driver.unhex mt with
